@@ -263,6 +263,8 @@ def validate_traces(module, traces, *, cfg=None, batch_events=4000, parallel=12,
             tids = {t for t, _ in items}
             if ok and (acc | set(rej)) == tids:
                 return acc, rej, cnt, k, r.distinct
+            if "Parsing or semantic analysis failed" in r.out or "Parsing or semantic analysis failed" in (r.error or ""):
+                raise MachineryError(f"specification {module} does not parse: {(r.error or r.out[-300:])[:300]}")     # never a verdict on the code
             if len(items) == 1:
                 tid = items[0][0]
                 if "TIMEOUT" in r.out[-20:]:
